@@ -141,6 +141,13 @@ def formats_tie(n_quick=150, n_thorough=2500):
                classify=classify, shard=50, timeout=300)
 
 
+def formats_scenario_tie(name, fn, n_quick, n_thorough):
+    from .scenarios import scenario_gen
+    return Tie(name=name, imports=['Base', 'Program', 'Formats'], run_def='run_formats', eqb='obs_formats_eqb',
+               gen=scenario_gen(fn, n_quick, n_thorough), impl=impl_formats, case_term=sysgen.case_term, obs_term=formats_obs_term,
+               nontrivial=lambda c: True, classify=lambda c: c.get('fault') or 'scenario', shard=50, timeout=300)
+
+
 # ------------------------------------------------------------------------------------------------ C15 determinism
 def _digest_outputs(td, names):
     h = {}
@@ -489,7 +496,7 @@ def failclosed_oracle(n_quick=120, n_thorough=2500):
 
 
 # ------------------------------------------------------------------------------------------------ C14 slow operands
-def slow_operand_oracle(n_quick=60, n_thorough=800):
+def slow_operand_oracle(n_quick=120, n_thorough=1500):
     """operand texts aimed at every operand kind of generated ISAs, with their numbers replaced by very long literals and
     left-over text appended: whatever the assembler makes of them, it must answer within the time limit and fail closed"""
     import re as _re
@@ -500,14 +507,20 @@ def slow_operand_oracle(n_quick=60, n_thorough=800):
     def gen(rng, tier):
         out = []
         for _ in range(n_quick if tier == 'quick' else n_thorough):
-            c = sysisa.gen_isa_case(rng, {'p_macros': 0.3}, 'quick')
+            kinds = rng.choice([None, ['indirect_register'], ['indirect_register', 'indirect_indexed_register', 'indexed_register'],
+                                ['indirect_numeric', 'deferred_numeric', 'relative_address', 'address', 'numeric_bytecode']])
+            c = sysisa.gen_isa_case(rng, dict({'p_macros': 0.3}, **({'kinds': kinds} if kinds else {})), 'quick')
             for st in c['files'][0]['stmts']:
                 if st[0] != 'asm':
                     continue
                 for o in st[2]:
-                    t = _re.sub(r'[$%]?[0-9a-fA-F]*\d[0-9a-fA-F]*', lambda m: rng.choice(LONG) if rng.random() < 0.7 else m.group(0), o[0])
-                    if rng.random() < 0.7:
+                    # numbers only (register names stay what they are)
+                    t = _re.sub(r'\$[0-9a-fA-F]+|%[01]+|\b\d+\b', lambda m: rng.choice(LONG) if rng.random() < 0.7 else m.group(0), o[0])
+                    r = rng.random()
+                    if r < 0.6:
                         t += rng.choice(['!', ' @', ' ' * 30 + '?', ' ' + rng.choice(LONG), ' 1 2 3 4 5 6 7 8 9 !'])
+                    elif r < 0.85 and t.rstrip().endswith((']', '}')):
+                        t = t.rstrip()[:-1] + rng.choice(['', ' ?', ' ' + rng.choice(LONG)])       # dropped closing bracket
                     o[0] = t
             c['preseed'] = rng.random() < 0.5
             c['limit'] = 30
